@@ -321,8 +321,83 @@ def gen_http():
     write("Http.lean", text)
 
 
+def fn_body(src, name):
+    m = re.search(r"fn\s+%s\s*(<[^>]*>)?\s*\(" % name, src)
+    if not m:
+        raise TranslateError("cannot find fn %s" % name)
+    # skip the parameter list (balanced parentheses), then take the first brace block
+    i = src.index("(", m.start())
+    depth = 0
+    while True:
+        if src[i] == "(":
+            depth += 1
+        elif src[i] == ")":
+            depth -= 1
+            if depth == 0:
+                break
+        i += 1
+    j = src.index("{", i)
+    depth, k = 0, j
+    while True:
+        if src[k] == "{":
+            depth += 1
+        elif src[k] == "}":
+            depth -= 1
+            if depth == 0:
+                return src[j + 1 : k]
+        k += 1
+
+
+def gen_sync():
+    """Facts about the replication code paths that the slice models are parameterised by."""
+    lib = strip_comments(open(os.path.join(REPO, "src/lib_priv.rs")).read())
+    fixsrc = strip_comments(open(os.path.join(REPO, "src/bundle_fix.rs")).read())
+    apply_body = fn_body(lib, "apply_component_change_from_network")
+    # D1: an early `return false` guarded by a lookup in pushed_component_from_network, before the value test
+    pre = apply_body.split("is_value_different")[0]
+    skips = "pushed_component_from_network" in pre and bool(
+        re.search(r"return\s+false", pre.split("pushed_component_from_network", 1)[1]))
+    # D13: patch (apply / apply_or_insert) or replace (insert)
+    if re.search(r"reflect_component\s*\.\s*(apply_or_insert|apply)\s*\(", apply_body):
+        patch = True
+    elif re.search(r"reflect_component\s*\.\s*insert\s*\(", apply_body):
+        patch = False
+    else:
+        raise TranslateError("apply_component_change_from_network: how the value is written is not recognised")
+    if "insert(change_id)" not in re.sub(r"\s+", "", apply_body):
+        raise TranslateError("apply_component_change_from_network: token insertion not found")
+    signal_body = fn_body(lib, "signal_component_changed")
+    if not (re.search(r"pushed_component_from_network\s*\.\s*contains", signal_body)
+            and re.search(r"pushed_component_from_network\s*\.\s*remove", signal_body)
+            and re.search(r"changed_components_to_send\s*\.\s*push_back", signal_body)):
+        raise TranslateError("signal_component_changed has an unexpected shape")
+    # D8: do the companion fixes re-insert the replicated value itself?
+    vis = fn_body(fixsrc, "fix_visibility_bundle")
+    glob = fn_body(fixsrc, "fix_missing_global_transforms")
+    reinserts = bool(re.search(r"\.insert\(\s*\*\s*v\s*\)", vis)) or bool(re.search(r"\.insert\(\s*t\s*\)", glob))
+    # detection filter of sync_detect (D2)
+    detect_hdr = lib[lib.index("fn sync_detect"):]
+    detect_hdr = detect_hdr[: detect_hdr.index("{")]
+    detects_added_entity = "Added<SyncEntity>" in detect_hdr.replace(" ", "")
+    for need in ("With<SyncEntity>", "Without<SyncExclude<T>>", "Changed<T>"):
+        if need not in detect_hdr.replace(" ", ""):
+            raise TranslateError("sync_detect filter lacks %s" % need)
+    text = "/-! GENERATED by /verif/translate/translate.py from src/lib_priv.rs, src/bundle_fix.rs — do not edit. -/\nnamespace BevySync\nnamespace Generated\n\n"
+    text += "/-- apply_component_change_from_network returns early while a debounce token is present (D1) -/\n"
+    text += "def applySkipsOnToken : Bool := %s\n" % str(skips).lower()
+    text += "/-- the received value is applied as a reflect patch (apply / apply_or_insert) rather than inserted (D13) -/\n"
+    text += "def applyIsPatch : Bool := %s\n" % str(patch).lower()
+    text += "/-- the companion fixes re-insert the Visibility / Transform value they captured (D8) -/\n"
+    text += "def fixReinsertsValue : Bool := %s\n" % str(reinserts).lower()
+    text += "/-- sync_detect also fires for entities that just became SyncEntity (values carried at mark time, D2) -/\n"
+    text += "def detectSeesNewSyncEntity : Bool := %s\n" % str(detects_added_entity).lower()
+    text += FOOTER
+    write("Sync.lean", text)
+
+
 def main():
     try:
+        gen_sync()
         gen_struct("src/networking/assets/mesh_serde.rs", "MeshData", "meshData", "MeshData.lean")
         gen_struct("src/networking/assets/image_serde.rs", "ImageData", "imageData", "ImageData.lean")
         gen_struct("src/lib_priv.rs", "SkinnedMeshSyncMapper", "skinMapper", "SkinMapper.lean")
